@@ -127,7 +127,12 @@ HELPER_DEPS = {"D": ([], []), "E": ([], []), "G": ([], []), "M": (["D", "E"], []
 HELPER_PLACES = {"S1": "pair§.ts", "S2": "pair§.ts", "LA": "leaves§.ts", "LB": "leaves§.ts", "UA": "users§.ts", "UB": "users§.ts", "UC": "users§.ts"}
 DPLACES = {"default": "", "dir": '#[ts(export_to = "sub/")]', "file": '#[ts(export_to = "custom/file§.ts")]', "nested": '#[ts(export_to = "a/b/")]',
            "escape": '#[ts(export_to = "../esc§/D§.ts")]', "dotted": '#[ts(export_to = "x.y/d.ts/")]', "same_as_root": '#[ts(export_to = "both§.ts")]',
-           "same_dotdot": '#[ts(export_to = "sub§/../both§.ts")]'}
+           "same_dotdot": '#[ts(export_to = "sub§/../both§.ts")]',
+           # export_to given by an expression (a constant, a function call) instead of a literal
+           "expr_dir": "#[ts(export_to = EXPR_DIR)]", "expr_file": '#[ts(export_to = expr_file("D§"))]'}
+# what the expressions above evaluate to (the constant / function are in the corpus' extra prelude)
+EXPR_PLACES = {"expr_dir": "viaexpr/", "expr_file": "viaexpr/file_D§.ts"}
+EXPR_PRELUDE = 'pub const EXPR_DIR: &str = "viaexpr/"; pub fn expr_file(n: &str) -> String { format!("viaexpr/file_{n}.ts") }'
 RPLACES = {"default": "", "dir": '#[ts(export_to = "rootdir/")]', "nested_file": '#[ts(export_to = "r/deep/Root§.ts")]', "same_as_dep": '#[ts(export_to = "both§.ts")]',
            "escape": '#[ts(export_to = "../resc§/R§.ts")]'}
 DIRS = {"relative": "out", "dotslash": "./out/", "absolute": "{ABS}/out", "dotdot": "x/../out"}
@@ -183,7 +188,7 @@ def export_cases(tier, esm, stats, sandbox):
     holds a few unrelated files.  -> (units, observations, {unit: result}, {unit: tree before})"""
     cfgp = os.path.join(vlib.TMP, "graphs-cfg.json")
     q = tier == "quick"
-    dplaces = list(DPLACES) if not q else ["default", "dir", "file", "escape", "same_as_root", "same_dotdot"]
+    dplaces = list(DPLACES) if not q else ["default", "dir", "file", "escape", "same_as_root", "same_dotdot", "expr_dir", "expr_file"]
     rplaces = list(RPLACES) if not q else ["default", "nested_file", "escape"]
     dirs = list(DIRS) if not q else ["relative", "absolute"]
     json.dump({"edges": list(EDGES), "dplaces": dplaces, "rplaces": rplaces, "dirs": dirs, "placed": PLACED if not q else PLACED[:4]}, open(cfgp, "w"))
@@ -194,7 +199,7 @@ def export_cases(tier, esm, stats, sandbox):
     stats["transitions"] += r.generated
     units = [case_unit(n, c) for n, c in enumerate(cases)]
     feats = ("serde-compat", "import-esm") if esm else ("serde-compat",)
-    c = corpus.Corpus("graphs-esm" if esm else "graphs", units, features=feats, extra_prelude="pub struct Opaque;")
+    c = corpus.Corpus("graphs-esm" if esm else "graphs", units, features=feats, extra_prelude="pub struct Opaque; " + EXPR_PRELUDE)
     obs = c.observe()
     if c.rejected:
         raise ToolError("graph corpus does not compile: %s" % json.dumps(c.rejected)[:1500])
